@@ -352,16 +352,22 @@ Definition tchoice (t : table) (g n k : Z) : list Z * Z :=
 
 Definition enc_error (e : error) : list Z :=
   match e with ErrValue => [1] | ErrIndex => [2] | ErrNegative => [3] end.
+(* results with more than 600 events are compared through digests *)
+Definition digest (l : list Z) : Z :=
+  fold_left (fun h x => (h * 1000003 + x) mod 2305843009213693951) l 17.
+Definition enc_mask_list (m : list bool) : list Z :=
+  if 600 <? zlen m then [4; digest (map enc_bool m)] else map enc_bool m.
+Definition enc_vals (l : list fval) : list Z :=
+  if 600 <? zlen l then [4; digest (flat_map enc_fval l)] else flat_map enc_fval l.
 Definition enc_result (r : result) : list Z :=
   match r with
   | Ok asd bsd keep =>
-      [0; count_true keep] ++ map enc_bool keep
-      ++ flat_map enc_fval asd ++ flat_map enc_fval bsd
+      [0; count_true keep] ++ enc_mask_list keep ++ enc_vals asd ++ enc_vals bsd
   | Err e => enc_error e
   end.
 Definition enc_mask (r : list bool + error) : list Z :=
   match r with
-  | inl m => [0; count_true m] ++ map enc_bool m
+  | inl m => [0; count_true m] ++ enc_mask_list m
   | inr e => enc_error e
   end.
 
